@@ -92,6 +92,20 @@ def m_loop {ρ : Type} : Nat → PF ρ Unit → PF ρ Unit
     | .retn r => .ret (.retn r)
     | .brk => .ret (.norm ()))
 
+/-- `break` out of a loop that threads mutable state: the state at the `break` is the loop's result -/
+def m_break_st {σ ρ α : Type} (st : σ) : PF (Sum σ ρ) α := Prog.ret (.retn (Sum.inl st))
+
+/-- `loop { body }` over mutable locals `st` (the variables the body assigns), with `fuel` iterations: the body runs with
+the function's `return r` encoded as `retn (inr r)` and `break` as `retn (inl state)`; falling off the end of the body
+continues with the new state -/
+def m_loop_st {σ ρ : Type} : Nat → σ → (σ → PF (Sum σ ρ) σ) → PF ρ σ
+  | 0, _, _ => Prog.spin
+  | k + 1, st, body => Prog.bind (body st) (fun x => match x with
+    | .norm st' => m_loop_st k st' body
+    | .retn (Sum.inl st') => .ret (.norm st')
+    | .retn (Sum.inr r) => .ret (.retn r)
+    | .brk => .panic "break")
+
 /-- the statements between the creation of a drop guard and its `disarm()` -/
 def m_guarded {ρ α : Type} (onUnwind : PF ρ Unit) (body : PF ρ α) : PF ρ α :=
   Prog.guarded (Prog.bind onUnwind (fun _ => .ret ())) body
@@ -120,6 +134,24 @@ structure IterSelf where
 structure CompleteOnUnwind where
   completed : AtomicBoolH
   armed : Bool
+  deriving Repr
+
+/-- `BufferIter<T, Iter>`: the reusable chunk buffer `Vec<Option<T>>` -/
+structure BufIterSelf where
+  values : List (Option Nat)
+  deriving Repr
+
+/-- `BufferedIter<'a, T>` of buffered/iter.rs: the chunk's value iterator over the buffer's slots -/
+structure BufferedIter where
+  values : List (Option Nat)
+  initial_len : Nat
+  current_idx : Nat
+  deriving Repr
+
+/-- `BufferedIter<'a, T, BufferIter<T, Iter>>` of buffered/buffered_iter.rs: the chunk puller with its buffer -/
+structure BufferedIterSelfP where
+  buffered_iter : BufIterSelf
+  atomic_iter : IterSelf := {}
   deriving Repr
 
 /-! ## `usize`, `Option`, `Vec` -/
@@ -193,6 +225,20 @@ def collectAux {α : Type} (step : Nat → PF ρ (Option α)) : Nat → Nat → 
 /-- `collect::<Vec<_>>()`: pulls until the first `None` or the end of the positions -/
 def m_collect {α : Type} (it : LIt ρ α) : PF ρ (List α) := collectAux it.step it.len 0 []
 
+/-- `v[i]`: panics when out of range -/
+def m_index {α : Type} (l : List α) (i : Nat) : PF ρ α :=
+  match l[i]? with
+  | some a => pure a
+  | none => Prog.panic "index"
+/-- `v[i] = x`: panics when out of range (the old value is dropped) -/
+def m_set_index {α : Type} (l : List α) (i : Nat) (x : α) : PF ρ (List α) :=
+  if i < l.length then pure (l.set i x) else Prog.panic "index"
+/-- the value a branching expression left in its result variable -/
+def m_the {α : Type} (o : Option α) : PF ρ α :=
+  match o with
+  | some a => pure a
+  | none => Prog.panic "unreachable"
+def m_join {α : Type} (o : Option (Option α)) : PF ρ (Option α) := pure o.join
 def m_len {α : Type} (l : List α) : PF ρ Nat := pure l.length
 def m_into_iter {α : Type} (l : List α) : PF ρ (List α) := pure l
 
